@@ -143,7 +143,7 @@ structure CW where
   exclCT : List Bytes
   buffer : Bytes := []
   committed : Option Hdrs := none
-  trailers : Hdrs := []        -- trailer values taken aside by restoreHeader (`[]` values = deleted after the commit)
+  trailers : Option (Hdrs × Hdrs) := none   -- (committed map, trailer entries taken aside) between restoreHeader and restoreTrailers
   headersSent : Bool := false
   status : Nat := 0
   decided : Bool := false
@@ -168,21 +168,24 @@ def CW.initCompression (w : CW) : CW :=
   let w := if !w.headersSent then { w with base := w.base.writeHeader w.status, headersSent := true } else w
   { w with hasWriter := true }
 
-/-- restoreHeader: the live map goes back to what the handler committed; trailer values set (or
-    deleted) since then are taken aside -/
+/-- restoreHeader: the live map goes back to what the handler committed; the trailer entries of the map
+    as the handler left it (set, changed or — by their absence — deleted since the commit) are taken aside,
+    together with the committed map that says which keys are trailers -/
 def CW.restoreHeader (w : CW) : CW :=
   match w.committed with
   | none => w
   | some h =>
-    let live := w.base.live
-    let late := live.filter (fun kv => isTrailerKey h kv.1) ++
-      (h.filter (fun kv => isTrailerKey h kv.1 && !hhas live kv.1)).map (fun kv => (kv.1, []))
-    { w with base := { w.base with live := h }, committed := none, trailers := late }
+    { w with base := { w.base with live := h }, committed := none,
+             trailers := some (h, w.base.live.filter (fun kv => isTrailerKey h kv.1)) }
 
-/-- restoreTrailers: after the header block -/
+/-- restoreTrailers, after the header block: every trailer key gets the value taken aside (a trailer the
+    handler deleted ends up without a value: as a map, absent) -/
 def CW.restoreTrailers (w : CW) : CW :=
-  { w with base := { w.base with live := w.trailers.foldl (fun l kv => hset l kv.1 kv.2) w.base.live },
-           trailers := [] }
+  match w.trailers with
+  | none => w
+  | some (h, late) =>
+    { w with base := { w.base with live := w.base.live.filter (fun kv => !isTrailerKey h kv.1) ++ late },
+             trailers := none }
 
 /-- `const sniffLen = 512` -/
 @[reducible] def sniffLen : Nat := 512
